@@ -597,6 +597,287 @@ def _adversarial_expm(ctx, rng, out, n):
             out["nontrivial"].add((name, str(rules), "adversarial"))
 
 
+# --------------------------------------------------------------------------
+# "specified vs applied": parameter scopes resolved by the harness's own tree walk
+# --------------------------------------------------------------------------
+INDEP_NUC = ("HKY85", "TN93", "GTR")
+
+
+def _indep_nuc_Q(name, motifs, par, pi):
+    """HKY85 / TN93 / GTR rate matrix from the papers' definition: rate(i->j) = exchangeability x pi_j, rows sum to
+    zero, calibrated to one expected substitution per unit time"""
+    import numpy
+
+    m = len(motifs)
+    Q = numpy.zeros((m, m))
+    for i, a in enumerate(motifs):
+        for j, b in enumerate(motifs):
+            if i == j:
+                continue
+            pair = frozenset((a, b))
+            if name == "HKY85":
+                r = par["kappa"] if pair in TRANSITIONS else 1.0
+            elif name == "TN93":
+                r = par["kappa_y"] if pair == frozenset("CT") else par["kappa_r"] if pair == frozenset("AG") else 1.0
+            else:
+                r = par.get("/".join(sorted((a, b))), 1.0)
+            Q[i, j] = r * pi[j]
+    Q -= numpy.diag(Q.sum(axis=1))
+    Q /= -(pi * numpy.diag(Q)).sum()
+    return Q
+
+
+def scope_edges(tree, rule):
+    """the edges a scope names, by the harness's own walk over the tree as an UNDIRECTED graph.
+    edge= / edges= name edges directly (an edge is named after its lower node in the stored rooting);
+    tip_names=(a, b): the tree is viewed from `outgroup_name` (from the stored root if none); M = the last common node of
+    the paths to a and b; clade = every edge on the far side of M, stem = the edge joining M to the side of the outgroup.
+    Returns None when the request is ill-formed (no edges, or a stem asked of the viewing root)."""
+    if rule.get("edges") is not None:
+        return list(rule["edges"])
+    if rule.get("edge") is not None:
+        return [rule["edge"]]
+    if not rule.get("tip_names"):
+        return U.tree_edges(tree)
+    a, b = rule["tip_names"]
+    stem = bool(rule.get("stem")) if rule.get("stem") is not None else False
+    clade = rule["clade"] if rule.get("clade") is not None else not stem
+    # undirected adjacency: node -> [(neighbour, edge name)]
+    adj = {}
+
+    def walk(n):
+        adj.setdefault(n["name"], [])
+        for c in n["children"]:
+            adj.setdefault(c["name"], [])
+            adj[n["name"]].append((c["name"], c["name"]))
+            adj[c["name"]].append((n["name"], c["name"]))
+            walk(c)
+
+    walk(tree)
+    top = rule.get("outgroup_name") or "root"
+    parent = {top: (None, None)}
+    order = [top]
+    for x in order:
+        for y, e in adj[x]:
+            if y not in parent:
+                parent[y] = (x, e)
+                order.append(y)
+
+    def path(x):
+        out = [x]
+        while parent[out[-1]][0] is not None:
+            out.append(parent[out[-1]][0])
+        return out[::-1]
+
+    pa, pb = path(a), path(b)
+    k = 0
+    while k < min(len(pa), len(pb)) and pa[k] == pb[k]:
+        k += 1
+    mrca = pa[k - 1]
+    names = []
+    if stem:
+        if parent[mrca][0] is None:
+            return None
+        names.append(parent[mrca][1])
+    if clade:
+        below = [mrca]
+        for x in below:
+            for y, e in adj[x]:
+                if parent.get(y, (None,))[0] == x:
+                    names.append(e)
+                    below.append(y)
+    return names or None
+
+
+def _rand_scope(rng, tree):
+    tips = U.tree_tips(tree)
+    edges = U.tree_edges(tree)
+    r = rng.random()
+    if r < 0.15:
+        return dict(edge=rng.choice(edges))
+    if r < 0.3:
+        return dict(edges=sorted(rng.sample(edges, rng.randint(1, len(edges) - 1))))
+    a, b = rng.sample(tips, 2)
+    rule = dict(tip_names=[a, b])
+    if rng.random() < 0.75:
+        rule["outgroup_name"] = rng.choice([t for t in tips if t not in (a, b)])
+    form = rng.choice(["default", "clade", "stem", "both", "stem-only-explicit"])
+    if form == "clade":
+        rule["clade"] = True
+    elif form == "stem":
+        rule["stem"] = True
+    elif form == "both":
+        rule["clade"], rule["stem"] = True, True
+    elif form == "stem-only-explicit":
+        rule["clade"], rule["stem"] = False, True
+    return rule
+
+
+def _scope_problems(ctx, rng, out, n):
+    """the parameter value every edge must carry is derived here from the scopes the test ASKS for; Q, P = scipy
+    expm(Qt) and lnL (exact pruning) follow from that assignment and are compared with lf.lnL and the values read back"""
+    import numpy
+    from scipy.linalg import expm
+
+    for i in range(n):
+        name = INDEP_NUC[(i + ctx.seed) % len(INDEP_NUC)]
+        spec = U.rand_problem(rng, name, ntips=rng.randint(4, 7), ncols=rng.randint(6, 14), bins=1, scoped=False, zero_ok=False,
+                              root_deg=rng.choice([2, 3, 3]))
+        spec["mprobs"] = spec["mprobs"] or U.rand_mprobs(rng, [str(m) for m in U.get_sm(name).get_alphabet()])
+        tree = spec["tree"]
+        pnames = {"HKY85": ["kappa"], "TN93": ["kappa_y", "kappa_r"], "GTR": ["A/C", "A/G", "A/T", "C/G", "C/T"]}[name]
+        rules, expect = [], {}
+        for p in pnames:
+            v = round(math.exp(rng.uniform(math.log(0.2), math.log(6.0))), 5)
+            rules.append(dict(par_name=p, init=v))
+            expect[p] = {e: v for e in U.tree_edges(tree)}
+        for _ in range(rng.randint(1, 3)):
+            p = rng.choice(pnames)
+            scope = _rand_scope(rng, tree)
+            es = scope_edges(tree, scope)
+            if es is None:
+                continue
+            v = round(math.exp(rng.uniform(math.log(0.2), math.log(6.0))), 5)
+            rule = dict(par_name=p, init=v, **scope)
+            if rng.random() < 0.4:
+                rule["is_independent"] = bool(rng.random() < 0.5)
+            rules.append(rule)
+            for e in es:
+                expect[p][e] = v
+            bump(out, "scope_form", "+".join(sorted(k for k in scope)) + ("" if "tip_names" not in scope else f":clade={scope.get('clade')}:stem={scope.get('stem')}"))
+        spec["rules"] = rules
+        spec["scoped"] = True
+        _check_scope(ctx, spec, expect, out)
+
+
+def _check_scope(ctx, spec, expect, out):
+    import numpy
+    from scipy.linalg import expm
+
+    name = spec["model"]
+    if expect is None:
+        expect = {}
+        for r in spec["rules"]:
+            es = scope_edges(spec["tree"], r)
+            for e in es or []:
+                expect.setdefault(r["par_name"], {})[e] = r["init"]
+    try:
+        lf = U.build_lf(spec, None)
+        got = float(lf.lnL)
+        ex = U.extract(lf, spec, profiles="oracle")
+    except Exception as e:
+        add_failure(out, "spec", "a well-formed parameter scope was refused", dict(_slim(spec), check="scope"), "a likelihood function",
+                    f"{type(e).__name__}: {e}", sig=f"scope-raised:{type(e).__name__}")
+        return
+    pi = numpy.array(ex["bins"][0]["pi"], dtype=float)
+    Ps, wrong = [], []
+    for e in ex["edges"]:
+        par = {p: expect[p][e] for p in expect}
+        for p in par:
+            back = float(lf.get_param_value(p, edge=e))
+            if back != par[p]:
+                wrong.append((p, e, par[p], back))
+        t = float(lf.get_param_value("length", edge=e))
+        Ps.append(expm(_indep_nuc_Q(name, ex["motifs"], par, pi) * t))
+    want = _lnl_from_P(ctx, ex, Ps)
+    out["evaluations"] += 1
+    bump(out, "scope_problems", name)
+    fl = [float(x) for x in lf.get_full_length_likelihoods()]
+    slack = sum(1e-12 / x for x in fl) if all(x > 1e-200 for x in fl) else float("inf")
+    if wrong or not (abs(got - want) <= 1e-7 * abs(want) + 1e-10 + slack):
+        add_failure(out, "spec", "lnL differs from the value computed with the parameter assignment the scopes specify",
+                    dict(_slim(spec), check="scope"), dict(lnL=want), dict(lnL=got, edges_with_other_value=wrong[:6]),
+                    sig=f"scope:{'tip_names' if any('tip_names' in r for r in spec['rules']) else 'edges'}:"
+                        f"{'outgroup' if any(r.get('outgroup_name') for r in spec['rules']) else 'stored-root'}")
+    else:
+        out["nontrivial"].add((name, spec["seed"], "scope"))
+
+
+# --------------------------------------------------------------------------
+# thorough only: one large problem (more than 2^15 distinct site patterns below one node)
+# --------------------------------------------------------------------------
+def _np_prune(tree_json, Ps, pi, onehot):
+    """plain float64 pruning vectorised over columns: onehot[tip] is an (ncols, m) 0/1 array"""
+    import numpy
+
+    def go(t):
+        if "l" in t:
+            v = onehot[t["l"]]
+        else:
+            v = None
+            for c in t["c"]:
+                u = go(c)
+                v = u if v is None else v * u
+        return v if t["e"] < 0 else v @ numpy.asarray(Ps[t["e"]]).T
+
+    return go(tree_json) @ numpy.asarray(pi)
+
+
+def _large_problem(ctx, rng, out, fixed=None):
+    import numpy
+
+    if fixed is None:
+        name = rng.choice(["HKY85", "GTR", "F81"])
+        ntips = rng.choice([10, 11, 12])
+        ncols = rng.choice([60000, 80000])
+        # caterpillar: the deepest internal nodes carry almost all tips
+        tips = [dict(name=f"s{i}", len=round(rng.uniform(0.05, 0.6), 4), children=[]) for i in range(ntips)]
+        node = dict(name="c0", len=round(rng.uniform(0.05, 0.3), 4), children=[tips[0], tips[1]])
+        for k in range(2, ntips - 1):
+            node = dict(name=f"c{k - 1}", len=round(rng.uniform(0.05, 0.3), 4), children=[node, tips[k]])
+        tree = dict(name="root", len=None, children=[node, tips[-1]])
+        motifs = [str(m) for m in U.get_sm(name).get_alphabet()]
+        fixed = dict(model=name, ntips=ntips, ncols=ncols, tree=tree, mprobs=U.rand_mprobs(rng, motifs), np_seed=rng.randrange(1 << 30),
+                     new_type=bool(rng.random() < 0.5), sub_seed=rng.randrange(1 << 30))
+    name, ntips, ncols, tree = fixed["model"], fixed["ntips"], fixed["ncols"], fixed["tree"]
+    motifs = [str(m) for m in U.get_sm(name).get_alphabet()]
+    nprng = numpy.random.default_rng(fixed["np_seed"])
+    codes = nprng.integers(0, 4, size=(ntips, ncols))
+    seqs = {f"s{i}": "".join(numpy.array(motifs)[codes[i]]) for i in range(ntips)}
+    spec = dict(model=name, kind="nucleotide", newick=U.newick(tree), tree=tree, seqs=seqs, moltype="dna", new_type=fixed["new_type"],
+                mprobs=fixed["mprobs"], rules=[], bins=1, model_kw={}, scoped=False, seed=fixed["np_seed"])
+    inp = dict(fixed, kind="nucleotide", newick=spec["newick"], check="large",
+               note="sequences: numpy.random.default_rng(np_seed).integers(0, 4, (ntips, ncols)) indexing the model's motif order")
+    rng = __import__("random").Random(fixed["sub_seed"])
+    try:
+        lf = U.build_lf(spec, None)
+        got = float(lf.lnL)
+        fl = numpy.array(lf.get_full_length_likelihoods(), dtype=float)
+    except Exception as e:
+        add_failure(out, "spec", "large alignment: likelihood function construction / evaluation raised", inp, "a likelihood",
+                    f"{type(e).__name__}: {e}", sig=f"large-raised:{type(e).__name__}")
+        return
+    small = dict(spec, seqs={k: v[:4] for k, v in seqs.items()})
+    ex = U.extract(lf, small, profiles="oracle")  # tree, edges, P, pi (columns are handled below)
+    tipidx = {t: i for i, t in enumerate(ex["tips"])}
+    onehot = {tipidx[f"s{i}"]: numpy.eye(4)[codes[i]] for i in range(ntips)}
+    lhs = _np_prune(ex["tree"], ex["bins"][0]["P"], ex["bins"][0]["pi"], onehot)
+    want = float(numpy.log(lhs).sum())
+    out["evaluations"] += 1
+    bump(out, "large_problem", f"{name}:{ntips}x{ncols}")
+    root = lf.get_param_value("root")
+    bump(out, "large_problem_patterns_log2", int(math.log2(max(len(c.uniq) for c in [root] + [root.get_edge(e) for e in ex["edges"]]))))
+    bad = numpy.flatnonzero(~numpy.isclose(fl, lhs, rtol=1e-9, atol=0))
+    if len(bad) or not (abs(got - want) <= 1e-9 * abs(want)):
+        add_failure(out, "spec", "large alignment: lnL / per-column likelihoods differ from plain float64 pruning",
+                    inp, dict(lnL=want), dict(lnL=got, first_bad_column=int(bad[0]) if len(bad) else None, n_bad=int(len(bad))),
+                    sig="large:int-index-overflow-or-similar")
+    else:
+        out["nontrivial"].add((name, ntips, ncols, "large"))
+    # a subsample of columns against the exact Lean model
+    sub = sorted(rng.sample(range(ncols), 150))
+    subspec = dict(spec, seqs={k: "".join(v[j] for j in sub) for k, v in seqs.items()})
+    ex2 = U.extract(lf, subspec, profiles="oracle")
+    (res,) = ctx.driver.batch([U.lean_request(ex2, [])])
+    lh = [unrat(x) for x in res["lh"]]
+    for k, j in enumerate(sub):
+        out["evaluations"] += 1
+        if not U.close(float(fl[j]), lh[res["index"][k]], REL_LH):
+            add_failure(out, "spec", "large alignment: per-column likelihood differs from the exact sum-product", dict(inp, column=j),
+                        float(lh[res["index"][k]]), float(fl[j]), sig="large:column")
+            break
+
+
 def spec_check(ctx, budget):
     out = new_outcome(
         "real likelihood functions vs the Lean spec `bruteForce` (sum over all labelings; leaf profiles from the harness's "
@@ -641,6 +922,10 @@ def spec_check(ctx, budget):
             add_failure(out, "spec", "likelihood function construction raised", _slim(spec), "a likelihood function",
                         f"{type(e).__name__}: {e}", sig=f"build-raised:{spec['kind']}:{type(e).__name__}")
     _adversarial_expm(ctx, rng, out, 6 * budget)
+    _scope_problems(ctx, rng, out, 8 * budget)
+    if ctx.thorough and budget <= 10:
+        for _ in range(2):
+            _large_problem(ctx, rng, out)
     if budget >= 8:
         for name in [prot[ctx.seed % len(prot)], U.DINUC]:
             spec = _all_columns_problem(rng, name, 2)
@@ -686,6 +971,10 @@ def _recheck(ctx, inp):
         if worst > 1e-8 or not (abs(got - want) <= 1e-7 * abs(want) + 1e-10):
             add_failure(out, "spec", "P / lnL differ from scipy expm(Q t) under tied or extreme in-bounds rate terms", inp, want, got,
                         sig=f"adversarial-expm:{spec['model']}")
+    elif check == "scope":
+        _check_scope(ctx, spec, None, out)
+    elif check == "large":
+        _large_problem(ctx, None, out, fixed={k: inp[k] for k in ("model", "ntips", "ncols", "tree", "mprobs", "np_seed", "new_type", "sub_seed")})
     elif check in ("indepQ", "omega"):
         lf = U.build_lf(spec, None)
         (_check_indep_codon(ctx, lf, spec, out) if check == "indepQ" else _check_omega_structure(lf, spec, out))
